@@ -455,7 +455,7 @@ def safe_events(chk, x, basis, dtype, dask, first_id, chunk_axis):
 
 
 def run_trace(chk, rnd, child_events=()):
-    n = 1000 if chk.tier == "thorough" else 90
+    n = 1000 if chk.tier == "thorough" else 70
     events = []
     for dtype in ("complex128", "complex64"):
         for basis in ("linear", "circular"):
